@@ -1,10 +1,10 @@
-(* C19 -- Rate limiter never admits more than the limit per window and never starves.
+(* C19 -- Rate limiter never grants more than the limit per window and never starves.
    Only statements, each closed by [exact]; the model is RateLimiter.v (glow/rate_limiter.go),
    proofs are in RateLimiter_lemmas.v.
 
    Reading guide: [nows] are the instants read by successive Allow calls (the mutex serialises the
    callers and time.Now() is read under it, so they are non-decreasing: [nondecr nows]);
-   [rl_run c nows = (reqs, adm)]: the limiter's list after these calls and every admitted instant.
+   [rl_run c nows = (reqs, adm)]: the limiter's list after these calls and every granted instant.
    [in_window c w a] = w <= a < w + rate;  [recent c now a] = now - rate < a.
    Every statement holds for every limit and every rate in Z (negative and zero included). *)
 From Coq Require Import ZArith List Bool Sorted Lia.
@@ -12,9 +12,9 @@ From GCA Require Import RateLimiter RateLimiter_lemmas.
 Import ListNotations.
 Open Scope Z_scope.
 
-(* the list is ascending; it answers every later call exactly like the list of all admitted instants
+(* the list is ascending; it answers every later call exactly like the list of all granted instants
    filtered to the window (the code's "first index after the expiry" is that filter); for a positive
-   rate it is exactly the admitted instants within (t - rate, t], t the latest call *)
+   rate it is exactly the granted instants within (t - rate, t], t the latest call *)
 Theorem c19_invariant : forall (c : rl_cfg) (nows : list Z) (t0 : Z), nondecr nows ->
   let s := rl_run c nows in
   let t := last nows t0 in
@@ -23,19 +23,19 @@ Theorem c19_invariant : forall (c : rl_cfg) (nows : list Z) (t0 : Z), nondecr no
   (forall now, t <= now -> drop_expired (now - r_rate c) (fst s) = filter (recent c now) (snd s)).
 Proof. exact invariant. Qed.
 
-(* every half-open window [w, w + rate) contains at most limit admitted calls (none if limit < 0) *)
+(* every half-open window [w, w + rate) contains at most limit granted calls (none if limit < 0) *)
 Theorem c19_safety : forall (c : rl_cfg) (nows : list Z) (w : Z), nondecr nows ->
   rl_len (filter (in_window c w) (snd (rl_run c nows))) <= Z.max 0 (r_limit c).
 Proof. exact safety. Qed.
 
-(* equivalently: any limit+1 admitted calls (x, the limit-1 calls of mid, y) span at least rate *)
+(* equivalently: any limit+1 granted calls (x, the limit-1 calls of mid, y) span at least rate *)
 Theorem c19_safety_span : forall (c : rl_cfg) (nows pre : list Z) x mid y post, nondecr nows ->
   snd (rl_run c nows) = pre ++ (x :: mid ++ [y]) ++ post ->
   rl_len mid = r_limit c - 1 ->
   r_rate c <= y - x.
 Proof. exact safety_span. Qed.
 
-(* a call is admitted if and only if fewer than limit calls were admitted within (now - rate, now] *)
+(* a call is granted if and only if fewer than limit calls were granted within (now - rate, now] *)
 Theorem c19_decision_exact : forall (c : rl_cfg) (nows : list Z) (now : Z), nondecr (nows ++ [now]) ->
   snd (allow c (fst (rl_run c nows)) now) =
     (rl_len (filter (recent c now) (snd (rl_run c nows))) <? r_limit c).
@@ -46,8 +46,8 @@ Theorem c19_liveness : forall (c : rl_cfg) (nows : list Z) (now : Z), nondecr (n
   snd (allow c (fst (rl_run c nows)) now) = true.
 Proof. exact liveness. Qed.
 
-(* edge cases, stated honestly: limit <= 0 admits nothing, ever; rate <= 0 never limits (every call
-   is admitted as soon as limit >= 1: the windows [w, w + rate) are empty, c19_safety says nothing) *)
+(* edge cases, stated honestly: limit <= 0 grants nothing, ever; rate <= 0 never limits (every call
+   is granted as soon as limit >= 1: the windows [w, w + rate) are empty, c19_safety says nothing) *)
 Theorem c19_limit_nonpositive : forall (c : rl_cfg) (reqs : list Z) (now : Z),
   r_limit c <= 0 -> snd (allow c reqs now) = false.
 Proof. exact limit_nonpositive. Qed.
@@ -63,7 +63,7 @@ Theorem c19_expiry_loop_is_filter : forall (exp : Z) (l : list Z), StronglySorte
 Proof. exact drop_expired_filter. Qed.
 
 (* ---- non-vacuity: limit 2, rate 10: a burst, a wrongful-looking but correct rejection at the edge
-   of the window, re-admission exactly one rate after the first admitted call ---- *)
+   of the window, a new grant exactly one rate after the first granted call ---- *)
 Definition ex_c : rl_cfg := {| r_limit := 2; r_rate := 10 |}.
 Definition ex_nows : list Z := [0; 0; 0; 5; 9; 10; 10; 19; 20].
 
